@@ -6,6 +6,9 @@ import (
 	"bytes"
 	"encoding/json"
 	"fmt"
+	"io"
+	"os"
+	"strconv"
 	"strings"
 	"testing"
 
@@ -267,9 +270,44 @@ func hugeRecords(rec *hx.Recorder) {
 	rec.NonTrivialEnum(n)
 }
 
+func fourGiB() gen.BigResult {
+	g := gen.NewBigFile(0xFFFFFFFF, 0xFFFFFFFF, nil)
+	return gen.DecodeBig(g, func(r io.Reader) ([]byte, error) {
+		f, err := fit.Decode(r)
+		var hr []byte
+		if f != nil {
+			if a, aerr := f.Activity(); aerr == nil && a != nil {
+				for _, m := range a.Records {
+					hr = append(hr, m.HeartRate)
+				}
+			}
+		}
+		return hr, err
+	})
+}
+
+func reportFourGiB(rec *hx.Recorder, r gen.BigResult) {
+	rec.Eval("four-gib", 1)
+	rec.NonTrivialEnum(1)
+	c := streamCase{Text: "(four-gib) header declares 4294967295 data bytes: file_id, record 100, 66047 unknown messages of 65026 bytes, short unknown messages, record 101, checksum"}
+	switch {
+	case r.Panic != nil:
+		rec.Fail("four-gib", "", fmt.Sprintf("Decode of a well-formed file with a data section of 2^32-1 bytes panicked: %v", r.Panic), c)
+	case r.Err != nil || !bytes.Equal(r.Records, []byte{100, 101}):
+		rec.Fail("four-gib", "", fmt.Sprintf("a well-formed activity file with a data section of 2^32-1 bytes (two records around unknown messages): err=%v records=%v, want the records 100 and 101", r.Err, r.Records), c)
+	case r.Delivered != r.Total:
+		rec.Fail("four-gib", "", fmt.Sprintf("Decode read %d bytes of a well-formed %d-byte file", r.Delivered, r.Total), c)
+	}
+}
+
 func TestC02(t *testing.T) {
 	hx.Main(t, "C02", func(rec *hx.Recorder) {
 		if rp, ok := hx.LoadReplay(); ok {
+			if rp.Sub == "four-gib" {
+				rec.Eval("replay", 1)
+				reportFourGiB(rec, fourGiB())
+				return
+			}
 			var c streamCase
 			if err := json.Unmarshal(rp.Case, &c); err != nil {
 				t.Fatal(err)
@@ -287,6 +325,20 @@ func TestC02(t *testing.T) {
 			}
 			return
 		}
+
+		// a well-formed file whose data section is 2^32-1 bytes long, decoded
+		// while the rest of this process's work goes on (first shard, 64-bit
+		// builds; the 4 GiB are streamed, not held)
+		var big chan gen.BigResult
+		if hx.FirstShard() && strconv.IntSize == 64 && os.Getenv("VERIF_VARIANT") == "" {
+			big = make(chan gen.BigResult, 1)
+			go func() { big <- fourGiB() }()
+		}
+		defer func() {
+			if big != nil {
+				reportFourGiB(rec, <-big)
+			}
+		}()
 
 		if hx.FirstShard() {
 			sweep(t, rec)
